@@ -17,7 +17,7 @@ RULE = ("two-layer trees under $ECONFTOOL_ROOT (vendor /usr/etc, local /etc) and
         "(harness), with the Lean model of the printer, and decoded back into sections/keys/values; distinct by (tree, arguments)")
 HEADER_LINES = 4
 
-CONTENTS = [b"a=1\nb=2\n", b"[S]\nx=1\n[T]\ny=2\n", b"g=0\n[S]\nx=1\n", b"[Empty]\n[S]\nx=1\n", b"k=first\n  second\n  third\nz=9\n",
+CONTENTS = [b"retry=5\nhost=example\ntimeout=30\nlog_target=syslog\nfvn=r\n", b"a=1\nb=2\n", b"[S]\nx=1\n[T]\ny=2\n", b"g=0\n[S]\nx=1\n", b"[Empty]\n[S]\nx=1\n", b"k=first\n  second\n  third\nz=9\n",
             b"bare\nq=\n[S]\nbare2\n", b"# c\nk=v # t\n[S]\n# d\nk=w\n", b"", b"dup=1\ndup=2\n", b"only=1\n"]
 BAD = [b"[broken\nx=1\n", b"a=1\n[S] tail\n", b"a=1\nb=2\n[]\n", b"k v\n"]
 
@@ -30,7 +30,10 @@ def run_tool(harness, root, args, env_extra=None):
 
 def make(rng, sid, harness, tmpbase):
     single = rng.random() < 0.25
-    delim, comment = rng.choice([(b"=", b"#"), (b"=", b"#"), (b":=", b"#;"), (b" =", b"#")])
+    # (delimiter bytes, comment bytes, spelling of --delimiters): escapes \t \n ... are translated by the tool
+    delim, comment, dspell = rng.choice([(b"=", b"#", "="), (b"=", b"#", "="), (b":=", b"#;", ":="), (b" =", b"#", " ="),
+                                         (b"=\t", b"#", "=\\t"), (b"\t=", b"#", "\\t="), (b"= \t", b"#", "= \\t"), (b":\x0c", b"#", ":\\f"),
+                                         (b"=\t\x0b", b";", "=\\t\\v")])
     bad = rng.random() < 0.2
     files = {}
     if single:
@@ -52,7 +55,7 @@ def make(rng, sid, harness, tmpbase):
         os.makedirs(os.path.dirname(full), exist_ok=True)
         with open(full, "wb") as f:
             f.write(c)
-    targ = ["--delimiters=" + delim.decode(), "--comment=" + comment.decode()]
+    targ = ["--delimiters=" + dspell, "--comment=" + comment.decode()]
     s = Scenario(sid, {"tool": True, "single": single, "files": files, "delim": delim, "comment": comment, "impl_only": True})
     for p, c in sorted(files.items()):
         s.file((root.encode() + p) if single else p, c)
